@@ -17,7 +17,7 @@ from z3 import And, BoolVal, ForAll, If, Implies, Int, Not, Or, Real, ToInt, ToR
 
 from vf import bounded as B
 from vf import prims as P
-from vf.common import label, new_exec, run_function, run_method
+from vf.common import multi_path_meta, label, new_exec, run_function, run_method
 from vf.engine import Obj, Oblig, Path, T, same_size, toB, toI, toR
 from vf.proof import prove
 
@@ -134,7 +134,7 @@ def build_sample():
         ex.contracts[("Scores", "__new__")] = c_new
         outs = run_method(ex, "NormalDataset", "sample", ds, [n], {"rng": Obj("Generator")}, path=path)
         ok = len(outs) == 1 and not outs[0].raised and isinstance(seen.get("pos"), T) and isinstance(seen.get("neg"), T)
-        obs.append(Oblig(f"C20/sample/returns-Scores-built-from-two-arrays[{sc}]", [], BoolVal(bool(ok)), "shape", ("C20",)))
+        obs.append(Oblig(f"C20/sample/returns-Scores-built-from-two-arrays[{sc}]", [], BoolVal(bool(ok)), "shape", ("C20",), multi_path_meta(outs)))
         if ok:
             lp, ln = toI(seen["pos"].axes[0].size), toI(seen["neg"].axes[0].size)
             obs.append(Oblig(f"C20/sample/sizes-add-up-to-n-and-nb_pos-in-[0,n][{sc}]", outs[0].path.pc, And(lp + ln == n, lp >= 0, ln >= 0), "post", ("C20",)))
@@ -155,7 +155,7 @@ def build_bernoulli():
     ds = Obj("BernoulliDataset", p=p, n=None)
     outs = run_method(ex, "BernoulliDataset", "sample", ds, [n], {"random": False, "rng": Obj("Generator")}, path=path)
     ok = len(outs) == 1 and not outs[0].raised and isinstance(outs[0].value, T) and getattr(outs[0].value, "repeat_parts", None) is not None
-    obs.append(Oblig("C20/bernoulli/non-random-sample-is-a-block-array", [], BoolVal(bool(ok)), "shape", ("C20",)))
+    obs.append(Oblig("C20/bernoulli/non-random-sample-is-a-block-array", [], BoolVal(bool(ok)), "shape", ("C20",), multi_path_meta(outs)))
     if ok:
         data, hy = outs[0].value, outs[0].path.pc
         parts = data.repeat_parts
@@ -192,7 +192,7 @@ def build_correlated():
     outs = run_method(ex, "CorrelatedBernoullilDataset", "sample", ds, [n], {"random": False, "rng": Obj("Generator")}, path=path)
     live = [o for o in outs if not o.raised]
     err = [o for o in outs if o.raised]
-    obs.append(Oblig("C20/correlated/one-normal-and-one-raising-path", [], BoolVal(len(live) == 1 and len(err) >= 1), "post", ("C20",), {"paths": len(outs)}))
+    obs.append(Oblig("C20/correlated/one-normal-and-one-raising-path", [], BoolVal(len(live) == 1 and len(err) >= 1), "post", ("C20",), dict({"paths": len(outs)}, **multi_path_meta(outs))))
     c = (1 - p1) * (1 - p2)
     a = c + rho * sq(p1 * p2 * c)
     probs = [a, 1 - p2 - a, 1 - p1 - a, p1 + p2 + a - 1]
